@@ -46,6 +46,7 @@ package acr
 //@     complete [all_iterations_no_early_exit]
 //@   loop 4
 //@     complete [all_iterations_no_early_exit]
+//@     invariant [the_kept_state_is_a_largest_count_found_by_a_search_that_starts_from_nothing] max >= 0.0 && 0 <= maxState && (forall q int :: {states[cur.id][q]} 0 <= q && q <= rangeindex ==> states[cur.id][q] <= max) && (max == 0.0 || (0 <= maxState && maxState <= rangeindex && states[cur.id][maxState] == max))
 
 // ---------------------------------------------------------------------------
 // Character parsimony, down-pass (property C12): the neighbour counts are accumulated in a buffer made for the
@@ -75,13 +76,19 @@ package acr
 //@     complete [all_iterations_no_early_exit]
 
 // randomlyResolveNodeStates keeps one of the retained states, drawn with math/rand: rewrites state counts only (thin)
+// randomlyResolveNodeStates (properties C12, C20): the possible states (count >= 1) are counted; with more than one, one
+// of them is drawn uniformly (a draw among exactly that many) and is the only state kept; with one or none nothing changes
 //@ func acr.randomlyResolveNodeStates
 //@   requires node != nil
+//@   entry [the_node_has_a_row] 0 <= node.id && node.id < len(states)
 //@   assigns elems("float64"), ghost(rand_count), ghost(rand_last), ghost(rand_range)
+//@   call math/rand.Intn [one_draw_among_exactly_the_possible_states_and_only_when_there_are_several] a0 == numstates && numstates > 1
 //@   loop 1
 //@     complete [all_iterations_no_early_exit]
+//@     step [a_state_is_possible_when_its_count_is_at_least_one] next(numstates) == numstates + (states[node.id][rangeindex + 1] >= 1.0 ? 1 : 0)
 //@   loop 2
 //@     complete [all_iterations_no_early_exit]
+//@     step [only_the_drawn_one_among_the_possible_states_is_kept] next(curstate) == curstate + (atHead(states[node.id][rangeindex + 1]) >= 1.0 ? 1 : 0) && states[node.id][rangeindex + 1] == ((atHead(states[node.id][rangeindex + 1]) >= 1.0 && curstate == randstate) ? 1.0 : 0.0)
 
 // ---------------------------------------------------------------------------
 // DELTRAN (property C12): a non-root inner node keeps exactly the states it shares with its parent; when it
